@@ -308,6 +308,11 @@ impl<'e> EventLoop<'e> {
                 if crate::common::constants::IO_URING_TIMEOUT_USERDATA == token {
                     continue;
                 }
+                // a zero-copy send posts a second completion when the kernel lets go of the
+                // buffer; it carries the same user data but is not the result of any call
+                if io_uring::cqueue::notif(cqe.flags()) {
+                    continue;
+                }
                 // resolve completed read/write tasks
                 let result = c_longlong::from(cqe.result());
                 if let Some((_, pair)) = self.syscall_wait_table.remove(&token) {
